@@ -32,7 +32,11 @@ CommonTyps == {"int", "float", "str", "bool", "Opt_int", "Opt_float", "Opt_str",
 CommonParams == {p \in ParamsOver(CommonTyps, Defs \ {"code"}, {"plain"}) : p.def # "absent"}   \* every parameter has a default
 \* C08's domain is hostile on purpose: untyped entries, descriptions containing the type-hint trigger words
 TrigDocs == {"trig_number", "trig_whether", "trig_listof", "trig_or", "trig_default", "doc_colon", "doc_paren", "doc_question", "multi", "ellipsis"}
+\* ... and type/default MISMATCHES that ordinary, if sloppy, Python is full of (`x: str = None`, `n: int = None`): round one may
+\* normalise them (Optional wrapping), round two must not move again
+Mismatched == [typ : {"str", "int", "bool"}, def : {"None"}, doc : {"plain"}]
 FixParams == ParamsOver(Typs, Defs \ {"code"}, {"plain", "dot"}) \cup ParamsOver({"absent", "int", "str", "Dotted"}, {"absent", "None", "int_pos", "str"}, TrigDocs)
+             \cup Mismatched
 Dom == IF Mode = "chain" THEN CommonParams ELSE FixParams
 SmallDom == IF Mode = "chain" THEN {p \in CommonParams : p.typ \in {"int", "Opt_str", "Lit"}}
             ELSE ParamsOver({"int", "str", "Opt_int"}, {"absent", "None", "int_pos", "str"}, {"plain"})
